@@ -222,3 +222,21 @@ Proof.
          end;
   cbn; intro H; try discriminate; injection H as <-; auto.
 Qed.
+
+Lemma command_of_str_no_panic : forall s p, command_of_str s <> Panic p.
+Proof.
+  intros s p. unfold command_of_str.
+  destruct (split_ascii_whitespace s) as [|w args]; [discriminate|].
+  repeat match goal with
+         | |- context [if ?c then _ else _] => destruct c
+         end;
+  repeat match goal with
+         | |- context [match ?l with [] => _ | _ :: _ => _ end] => destruct l
+         end;
+  unfold mech_of_str, hex_decode;
+  repeat match goal with
+         | |- context [if ?c then _ else _] => destruct c
+         | |- context [match bytes_of_hex ?h with _ => _ end] => destruct (bytes_of_hex h)
+         end;
+  cbn; discriminate.
+Qed.
